@@ -45,7 +45,7 @@ func c19() int {
 	for _, r := range routes {
 		patterns[r.pattern] = true
 	}
-	ledgers := []string{"l1", "new", "_", "a%2Fb"}
+	ledgers := []string{"l1", "new", "_", "a%2Fb", "eu%2Fmain%2Fx", "%2E%2E", "l1%3Fx"}
 	methods := []string{"GET", "HEAD", "OPTIONS", "POST", "PUT", "PATCH", "DELETE", "TRACE", "CONNECT", "PURGE", "post", "Post"}
 	headers := []map[string]string{{}, {"X-HTTP-Method-Override": "POST"}, {"X-HTTP-Method": "DELETE", "X-Method-Override": "POST"}, {"Idempotency-Key": "k"}, {"Content-Type": "application/json"}}
 	bodies := []string{"", `{"postings":[{"source":"world","destination":"a","amount":1,"asset":"USD"}],"metadata":{"k":"v"}}`, bulkAll, `{"k":"v"}`, `{"script":{"plain":"send [USD 1] (\n source=@world\n destination=@a\n)"}}`}
@@ -99,8 +99,11 @@ func c19() int {
 			q := strings.Replace(p, "{ledger}", l, 1)
 			q = strings.Replace(q, "{id}", "0", 1)
 			q = strings.Replace(q, "{address}", "a:b", 1)
-			q = strings.Replace(q, "{key}", "k", 1)
-			paths = append(paths, variants(q)...)
+			paths = append(paths, variants(strings.Replace(q, "{key}", "k", 1))...)
+			if strings.Contains(q, "{key}") {
+				// a percent-encoded slash / dot segments inside a path parameter (decoded and raw path differ)
+				paths = append(paths, strings.Replace(q, "{key}", "foo%2Fbar", 1), strings.Replace(q, "{key}", "%2E%2E", 1), strings.Replace(q, "{key}", "a%252Fb", 1))
+			}
 			if !strings.Contains(p, "{ledger}") {
 				break
 			}
@@ -123,6 +126,7 @@ func c19() int {
 		path := upaths[pi]
 		for _, ro := range []bool{true, false} {
 			b := recbackend.New("l1", "_")
+			b.AnyLedger = true
 			router := newRouter(b, ro)
 			for _, m := range methods {
 				for _, h := range headers {
